@@ -1,8 +1,593 @@
-//! Property check C04 (see /verif/DESIGN.md §4).
-use mc::{Level, Report};
+//! Property check C04 — "a tick patch replays to exactly the state the tick produced; the delta
+//! between two well-formed states transforms the first into exactly the second or fails with a
+//! typed error" (see /verif/DESIGN.md §4 C04).
+//!
+//! Enumerated: ordered pairs (a,b) of well-formed abstract states of the universes `U_A`
+//! (single instance) and `U_B` (root + descended instances).  For each pair the real
+//! `diff_state(build(a), build(b))` is wrapped in a `WarpTickPatchV1` and applied to a clone of
+//! `build(a)`; the oracle is the abstract target `b` (content, coherence of the store's indexes,
+//! state root).  `a` is additionally built in descending insertion order whenever that yields a
+//! physically different store.
+
+use std::collections::BTreeMap;
+use std::collections::HashSet;
+use std::sync::atomic::{AtomicBool, Ordering};
+
+use mc::{json, Level, Report, Value};
+use pairlib::*;
+use rayon::prelude::*;
+
+mod ticks;
+
+/// Quick tier: slot-distance bound of the exhaustive "near pairs" family over `U_A` level 0.
+const QUICK_D: u32 = 3;
+
+#[derive(Default, Clone)]
+struct Acc {
+    pairs: u64,
+    evals: u64,
+    rev_evals: u64,
+    exact: u64,
+    exact_nontrivial: u64,
+    identity_pairs: u64,
+    nontrivial: u64,
+    typed: Hist,
+    viol: Hist,
+    flags_seen: [u64; flag::COUNT],
+    flags_exact: [u64; flag::COUNT],
+    flags_typed: [u64; flag::COUNT],
+    op_kinds: [u64; 8],
+    classes: HashSet<u128>,
+    first_exact: Option<CaseId>,
+    max_ops: usize,
+}
+
+impl Acc {
+    fn merge(&mut self, o: Acc) {
+        self.pairs += o.pairs;
+        self.evals += o.evals;
+        self.rev_evals += o.rev_evals;
+        self.exact += o.exact;
+        self.exact_nontrivial += o.exact_nontrivial;
+        self.identity_pairs += o.identity_pairs;
+        self.nontrivial += o.nontrivial;
+        self.typed.merge(&o.typed);
+        self.viol.merge(&o.viol);
+        for i in 0..flag::COUNT {
+            self.flags_seen[i] += o.flags_seen[i];
+            self.flags_exact[i] += o.flags_exact[i];
+            self.flags_typed[i] += o.flags_typed[i];
+        }
+        for i in 0..8 {
+            self.op_kinds[i] += o.op_kinds[i];
+        }
+        self.classes.extend(o.classes);
+        self.first_exact = match (self.first_exact, o.first_exact) {
+            (Some(x), Some(y)) => Some(x.min(y)),
+            (x, None) => x,
+            (None, y) => y,
+        };
+        self.max_ops = self.max_ops.max(o.max_ops);
+    }
+}
+
+/// Which ordered pairs of a universe are evaluated.
+#[derive(Clone, Copy, Debug)]
+enum Family {
+    /// Every ordered pair (including a == b).
+    All,
+    /// Every ordered pair whose slot distance is exactly `d`.
+    ExactDistance(u32),
+    /// Quick-tier family: every ordered pair whose slot distance is <= `d`, plus every ordered
+    /// pair of the sub-universe selected by [`quick_core`].
+    Quick(u32),
+}
+
+/// Deterministic structural predicate selecting the quick-tier sub-universe of `U_A` level 0:
+/// the root node n0 has type t0 and carries no attachment (all other elements range freely).
+fn quick_core(s: &world::RefState) -> bool {
+    s.nodes.get(&(0, 0)) == Some(&0) && !s.atts.contains_key(&world::RefSlot::Node(0, 0))
+}
+
+fn eval_into(acc: &mut Acc, uni: &Uni, pre: &[Pre], ai: usize, bi: usize, d: u32) {
+    let a = &uni.states[ai];
+    let b = &uni.states[bi];
+    acc.pairs += 1;
+    let flags = pair_flags(a, b);
+    let size = state_size(a) + state_size(b);
+    let mut case = CaseId {
+        root_equal: true,
+        distance: d,
+        size,
+        a: ai as u32,
+        b: bi as u32,
+        reverse_a: false,
+    };
+    let mut variants: Vec<(bool, &warp_core::WarpState)> = vec![(false, &pre[ai].real)];
+    if let Some(rv) = &pre[ai].real_rev {
+        variants.push((true, rv));
+    }
+    for (reverse_a, real_a) in variants {
+        let ev = eval_pair(&uni.u, a, real_a, b, &pre[bi].real, &pre[bi].root);
+        acc.evals += 1;
+        if reverse_a {
+            acc.rev_evals += 1;
+        }
+        case.reverse_a = reverse_a;
+        case.root_equal = true;
+        let nontrivial = ai != bi && !ev.ops().is_empty();
+        if ai == bi {
+            acc.identity_pairs += 1;
+        }
+        acc.max_ops = acc.max_ops.max(ev.ops().len());
+        let kinds = op_kind_bits(ev.ops());
+        let vkey: String;
+        match &ev.verdict {
+            Verdict::Exact => {
+                acc.exact += 1;
+                if nontrivial {
+                    acc.exact_nontrivial += 1;
+                    if acc.first_exact.map_or(true, |c| case < c) && d >= 2 {
+                        acc.first_exact = Some(case);
+                    }
+                }
+                for i in 0..flag::COUNT {
+                    if flags & (1 << i) != 0 {
+                        acc.flags_exact[i] += 1;
+                    }
+                }
+                vkey = "exact".into();
+            }
+            Verdict::Typed(v) => {
+                acc.typed.add(v, case);
+                for i in 0..flag::COUNT {
+                    if flags & (1 << i) != 0 {
+                        acc.flags_typed[i] += 1;
+                    }
+                }
+                vkey = format!("typed:{v}");
+            }
+            Verdict::Bad(sigs, root_equal) => {
+                case.root_equal = *root_equal;
+                for s in sigs {
+                    acc.viol.add(s, case);
+                }
+                vkey = format!("bad:{}", sigs.join("|"));
+            }
+        }
+        for i in 0..flag::COUNT {
+            if flags & (1 << i) != 0 {
+                acc.flags_seen[i] += 1;
+            }
+        }
+        if nontrivial {
+            acc.nontrivial += 1;
+            for i in 0..8 {
+                if kinds & (1 << i) != 0 {
+                    acc.op_kinds[i] += 1;
+                }
+            }
+            let key = format!("{}|{flags:x}|{kinds:x}|{vkey}", uni.name);
+            acc.classes.insert(Report::key(key.as_bytes()));
+        }
+    }
+}
+
+/// Sweep one family of pairs of one universe in parallel (per-`a` accumulators merged in index
+/// order ⇒ deterministic).  Returns `None` when the wall cap interrupted it.
+fn sweep(r: &Report, uni: &Uni, pre: &[Pre], sv: &SlotVecs, fam: Family) -> (Acc, bool) {
+    let n = uni.states.len();
+    let core: Vec<bool> = uni.states.iter().map(quick_core).collect();
+    let stopped = AtomicBool::new(false);
+    let parts: Vec<Option<Acc>> = (0..n)
+        .into_par_iter()
+        .map(|ai| {
+            if stopped.load(Ordering::Relaxed) || r.over_budget() {
+                stopped.store(true, Ordering::Relaxed);
+                return None;
+            }
+            let mut acc = Acc::default();
+            let va = &sv.vecs[ai];
+            for bi in 0..n {
+                let d = distance(va, &sv.vecs[bi]);
+                match fam {
+                    Family::All => {}
+                    Family::ExactDistance(k) => {
+                        if d != k {
+                            continue;
+                        }
+                    }
+                    Family::Quick(k) => {
+                        if d > k && !(core[ai] && core[bi]) {
+                            continue;
+                        }
+                    }
+                }
+                eval_into(&mut acc, uni, pre, ai, bi, d);
+            }
+            Some(acc)
+        })
+        .collect();
+    let mut total = Acc::default();
+    let mut complete = true;
+    for p in parts {
+        match p {
+            Some(a) => total.merge(a),
+            None => complete = false,
+        }
+    }
+    (total, complete)
+}
+
+fn count_at_distance(sv: &SlotVecs, k: u32) -> u64 {
+    let n = sv.vecs.len();
+    (0..n)
+        .into_par_iter()
+        .map(|ai| {
+            let va = &sv.vecs[ai];
+            let mut c = 0u64;
+            for bi in 0..n {
+                if distance(va, &sv.vecs[bi]) == k {
+                    c += 1;
+                }
+            }
+            c
+        })
+        .sum()
+}
+
+/// Full detail for one case: re-evaluates it and records ops + resulting state.
+fn case_detail(uni: &Uni, c: &CaseId) -> Value {
+    let a = &uni.states[c.a as usize];
+    let b = &uni.states[c.b as usize];
+    let real_a = uni.u.build_ordered(a, c.reverse_a);
+    let real_b = uni.u.build(b);
+    let root_b = uni.u.state_root(&real_b, b);
+    let ev = eval_pair(&uni.u, a, &real_a, b, &real_b, &root_b);
+    let (outcome, got) = match &ev.verdict {
+        Verdict::Exact => ("Ok: exactly b".to_string(), Value::Null),
+        Verdict::Typed(v) => (format!("Err(TickPatchError::{v})"), Value::Null),
+        Verdict::Bad(s, _) => (
+            format!("VIOLATION {}", s.join(" | ")),
+            match &ev.result {
+                Some(st) => match uni.u.read(st) {
+                    Ok(g) => {
+                        let root = warp_core::verif_hooks::snapshot::state_root(st, &uni.u.root_key(b));
+                        json!({"state": g.to_json(), "state_root": mc::hex(&root), "expected_state_root": mc::hex(&root_b),
+                               "state_root_differs": root != root_b})
+                    }
+                    Err(e) => json!({"unreadable": e}),
+                },
+                None => Value::Null,
+            },
+        ),
+    };
+    let mut v = json!({
+        "case": case_json(uni, c),
+        "patch_ops": ev.ops().iter().map(|o| format!("{o:?}")).map(|s| shorten_ids(&uni.u, &s)).collect::<Vec<_>>(),
+        "outcome": outcome,
+    });
+    if !got.is_null() {
+        v["replayed"] = got;
+    }
+    v
+}
+
+/// Replace 32-byte id dumps in a Debug rendering by universe labels (n0, e1, t0, W1).
+fn shorten_ids(u: &world::Universe, s: &str) -> String {
+    let mut out = s.to_string();
+    let render = |bytes: &[u8; 32]| -> Vec<String> {
+        // both Debug forms that occur: `[1, 2, ...]` and hex (first 8 bytes) – try the array form
+        vec![format!("{bytes:?}")]
+    };
+    for (i, w) in u.warps.iter().enumerate() {
+        for r in render(&w.0) {
+            out = out.replace(&r, &format!("W{i}"));
+        }
+    }
+    for (i, n) in u.nodes.iter().enumerate() {
+        for r in render(&n.0) {
+            out = out.replace(&r, &format!("n{i}"));
+        }
+    }
+    for (i, e) in u.edges.iter().enumerate() {
+        for r in render(&e.0) {
+            out = out.replace(&r, &format!("e{i}"));
+        }
+    }
+    for (i, t) in u.types.iter().enumerate() {
+        for r in render(&t.0) {
+            out = out.replace(&r, &format!("t{i}"));
+        }
+    }
+    out
+}
+
+struct Totals {
+    acc: Acc,
+    viol_detail: BTreeMap<String, (u64, Value)>,
+    typed_samples: BTreeMap<String, Value>,
+}
+
+fn absorb(r: &Report, t: &mut Totals, uni: &Uni, label: &str, acc: Acc, wall: f64) {
+    r.counter(&format!("pairs:{label}"), acc.pairs);
+    r.counter(&format!("evaluations:{label}"), acc.evals);
+    r.counter(&format!("ok_exact:{label}"), acc.exact);
+    r.note(
+        &format!("phase:{label}"),
+        json!({"states": uni.states.len(), "raw_product": uni.raw, "pairs": acc.pairs, "evaluations": acc.evals,
+               "evaluations_with_reversed_insertion_order_of_a": acc.rev_evals, "wall_s": (wall*10.0).round()/10.0}),
+    );
+    for (sig, (n, c)) in &acc.viol.m {
+        let e = t.viol_detail.entry(sig.clone()).or_insert_with(|| (0, Value::Null));
+        if e.1.is_null() {
+            e.1 = case_detail(uni, c);
+        }
+        e.0 += n;
+    }
+    for (v, (_, c)) in &acc.typed.m {
+        t.typed_samples
+            .entry(v.clone())
+            .or_insert_with(|| case_detail(uni, c));
+    }
+    if let Some(c) = acc.first_exact {
+        r.sample(case_detail(uni, &c));
+    }
+    t.acc.merge(acc);
+}
+
+fn replay(r: &Report, path: &std::path::Path) {
+    let txt = match std::fs::read_to_string(path) {
+        Ok(t) => t,
+        Err(e) => {
+            r.machinery_error(&format!("cannot read replay file: {e}"));
+            return;
+        }
+    };
+    let v: Value = match serde_json::from_str(&txt) {
+        Ok(v) => v,
+        Err(e) => {
+            r.machinery_error(&format!("replay file is not JSON: {e}"));
+            return;
+        }
+    };
+    let case = if v["detail"]["case"].is_object() {
+        &v["detail"]["case"]
+    } else if v["case"].is_object() {
+        &v["case"]
+    } else {
+        &v
+    };
+    if case["kind"].as_str() == Some("engine-tick") {
+        ticks::replay(r, case);
+        return;
+    }
+    let name = case["universe"].as_str().unwrap_or("U_A");
+    let level = case["level"].as_u64().unwrap_or(0) as u8;
+    let Some(uni) = Uni::by_name(name, level) else {
+        r.machinery_error("replay: unknown universe");
+        return;
+    };
+    let ai = case["a_index"].as_u64().unwrap_or(0) as usize;
+    let bi = case["b_index"].as_u64().unwrap_or(0) as usize;
+    if ai >= uni.states.len() || bi >= uni.states.len() {
+        r.machinery_error("replay: index out of range");
+        return;
+    }
+    if uni.states[ai].to_json() != case["a"] || uni.states[bi].to_json() != case["b"] {
+        r.machinery_error("replay: indices no longer denote the recorded states (universe changed)");
+        return;
+    }
+    let sv = slot_vectors(&uni.states);
+    let c = CaseId {
+        root_equal: false,
+        distance: distance(&sv.vecs[ai], &sv.vecs[bi]),
+        size: state_size(&uni.states[ai]) + state_size(&uni.states[bi]),
+        a: ai as u32,
+        b: bi as u32,
+        reverse_a: case["reverse_a"].as_bool().unwrap_or(false),
+    };
+    let d = case_detail(&uni, &c);
+    println!("{}", serde_json::to_string_pretty(&d).unwrap_or_default());
+    r.eval(1);
+    r.nontrivial(b"replay");
+    r.nontrivial(b"replay-2");
+    r.rule("replay of one recorded (a,b) pair");
+    r.sample(d.clone());
+    let a = &uni.states[ai];
+    let b = &uni.states[bi];
+    let real_a = uni.u.build_ordered(a, c.reverse_a);
+    let real_b = uni.u.build(b);
+    let root_b = uni.u.state_root(&real_b, b);
+    if let Verdict::Bad(sigs, _) = eval_pair(&uni.u, a, &real_a, b, &real_b, &root_b).verdict {
+        for s in sigs {
+            r.violation(&s, d.clone());
+        }
+    }
+}
 
 fn main() {
     let r = Report::new("C04", Level::Exploration);
-    r.machinery_error("check not implemented yet");
+    mc::quiet_panics();
+    if let Some(p) = r.replay.clone() {
+        replay(&r, &p);
+        r.finish();
+    }
+    r.rule(
+        "case = ordered pair (a,b) of well-formed abstract states of one universe (x insertion order of a when it changes the store physically); \
+         evaluated = diff_state -> WarpTickPatchV1::new -> apply_to_state on the real code, judged against b. \
+         A case is non-trivial when a != b and the patch has >= 1 op; distinct_nontrivial counts distinct \
+         (universe, set of change tags between a and b, set of op kinds in the patch, verdict) classes among the non-trivial cases \
+         (the exact number of non-trivial cases, all distinct by construction, is counters.nontrivial_cases).",
+    );
+    r.assume("RefState (world crate) is the oracle for state equality; Universe::read/coherent observe the real store through public accessors + the enumeration hook only");
+    r.assume("Typed TickPatchError on an arbitrary pair is counted, not alarmed (the statement allows 'fails to apply with a typed error'); values outside the universes' alphabets are not covered");
+    r.assume("a is built in descending insertion order only when that yields a physically different store (Debug rendering differs); identical memory => identical deterministic behaviour");
+
+    let mut t = Totals {
+        acc: Acc::default(),
+        viol_detail: BTreeMap::new(),
+        typed_samples: BTreeMap::new(),
+    };
+
+    // ---- phase 1: every ordered pair of the level-0 universes ---------------------------------
+    let mut rate = 1.0e6f64; // evaluations per second, re-measured below
+    for uni in [Uni::a(0), Uni::b(0)] {
+        let t0 = r.elapsed_s();
+        let pre = precompute(&uni);
+        let sv = slot_vectors(&uni.states);
+        let restricted = r.quick() && uni.name == "U_A";
+        let fam = if restricted { Family::Quick(QUICK_D) } else { Family::All };
+        let (acc, complete) = sweep(&r, &uni, &pre, &sv, fam);
+        let wall = r.elapsed_s() - t0;
+        if !complete {
+            r.cap_hit(&format!("{} level 0 sweep interrupted by the wall cap", uni.name));
+        }
+        if wall > 0.5 {
+            rate = acc.evals as f64 / wall;
+        }
+        let label = if restricted {
+            r.not_exhaustive();
+            r.note(
+                "quick_family:U_A0",
+                json!({"what": format!("all ordered pairs at slot distance <= {QUICK_D} over all {} states, plus all ordered pairs of the sub-universe 'n0 has type t0 and no attachment' ({} states); the thorough tier evaluates all {} ordered pairs", uni.states.len(), uni.states.iter().filter(|s| quick_core(s)).count(), uni.states.len()*uni.states.len())}),
+            );
+            format!("{}0:distance<={QUICK_D}+core-sub-universe", uni.name)
+        } else {
+            format!("{}0:all-pairs", uni.name)
+        };
+        absorb(&r, &mut t, &uni, &label, acc, wall);
+    }
+
+    // ---- phase 2 (thorough): level-1 universes, every ordered pair within slot distance d ------
+    if r.thorough() {
+        // phase budget: 55% of the wall cap or 14 minutes, whichever is smaller
+        for (uni, share) in [(Uni::a(1), 0.70), (Uni::b(1), 1.0)] {
+            let t0 = r.elapsed_s();
+            let pre = precompute(&uni);
+            let sv = slot_vectors(&uni.states);
+            r.note(
+                &format!("universe:{}1", uni.name),
+                json!({"states": uni.states.len(), "raw_product": uni.raw, "slots": sv.slots,
+                       "physically_order_sensitive_states": pre.iter().filter(|p| p.real_rev.is_some()).count()}),
+            );
+            let budget_end = (840.0f64).min(0.55 * cap_s(&r)) * share;
+            let mut completed = 0u32;
+            for d in 1..=sv.slots as u32 {
+                let cnt = count_at_distance(&sv, d);
+                if cnt == 0 {
+                    completed = d;
+                    continue;
+                }
+                let est = cnt as f64 * 1.4 / rate;
+                if r.elapsed_s() + est > budget_end {
+                    r.cap_hit(&format!(
+                        "{} level 1: all ordered pairs at slot distance <= {} evaluated; distance {} ({} pairs, est {:.0} s) and above not run (time budget)",
+                        uni.name, completed, d, cnt, est
+                    ));
+                    break;
+                }
+                let l0 = r.elapsed_s();
+                let (acc, complete) = sweep(&r, &uni, &pre, &sv, Family::ExactDistance(d));
+                let wall = r.elapsed_s() - l0;
+                if wall > 2.0 {
+                    rate = acc.evals as f64 / wall;
+                }
+                let label = format!("{}1:distance={}", uni.name, d);
+                absorb(&r, &mut t, &uni, &label, acc, wall);
+                if !complete {
+                    r.cap_hit(&format!("{} level 1 distance {} interrupted by the wall cap", uni.name, d));
+                    break;
+                }
+                completed = d;
+            }
+            r.note(
+                &format!("covered:{}1", uni.name),
+                json!({"all_ordered_pairs_within_slot_distance": completed, "wall_s": ((r.elapsed_s()-t0)*10.0).round()/10.0}),
+            );
+        }
+    }
+
+    // ---- phase 3: patches of real engine ticks ------------------------------------------------
+    ticks::run(&r);
+
+    // ---- evidence -----------------------------------------------------------------------------
+    let acc = &t.acc;
+    r.eval(acc.evals);
+    r.nontrivial_many(acc.classes.iter().copied());
+    r.counter("nontrivial_cases", acc.nontrivial);
+    r.counter("ok_exact_nontrivial", acc.exact_nontrivial);
+    r.counter("identity_pairs_empty_patch", acc.identity_pairs);
+    r.counter("max_ops_in_a_patch", acc.max_ops as u64);
+    r.counter("evaluations_per_second_last_phase", rate as u64);
+    r.outcome_n("apply_ok_exactly_b", acc.exact);
+    let mut typed_total = 0;
+    for (v, (n, _)) in &acc.typed.m {
+        r.outcome_n(&format!("typed_error:{v}"), *n);
+        typed_total += n;
+    }
+    for (sig, (n, _)) in &t.viol_detail {
+        r.outcome_n(&format!("violation:{sig}"), *n);
+    }
+    let mut seen = serde_json::Map::new();
+    for i in 0..flag::COUNT {
+        seen.insert(
+            FLAG_NAMES[i].to_string(),
+            json!({"evaluated": acc.flags_seen[i], "ok_exact": acc.flags_exact[i], "typed_error": acc.flags_typed[i]}),
+        );
+    }
+    r.note("change_tags", Value::Object(seen));
+    let mut kinds = serde_json::Map::new();
+    for i in 0..8 {
+        kinds.insert(OP_KINDS[i].to_string(), json!(acc.op_kinds[i]));
+    }
+    r.note("patches_containing_op_kind", Value::Object(kinds));
+    for (v, d) in &t.typed_samples {
+        r.sample_force(json!({"typed_error": v, "minimal_case": d}));
+    }
+
+    // vacuity guards
+    r.guard("pairs_with_ok_apply>0", acc.exact_nontrivial > 0);
+    r.guard("pairs_with_typed_error>0", typed_total > 0);
+    r.guard("typed_error_variants>=2", acc.typed.m.len() >= 2);
+    let need = [
+        (flag::EDGE_REPARENT, "edge-reparent"),
+        (flag::EDGE_REPARENT_ATT_KEPT, "edge-reparent+attachment-kept"),
+        (flag::NODE_DELETE_INCIDENT, "node-delete-with-incident-edges"),
+        (flag::NODE_RETYPE_WITH_ATT, "node-retype+attachment"),
+        (flag::PORTAL_OPEN, "portal-open"),
+        (flag::PORTAL_CLOSE, "portal-close"),
+        (flag::INSTANCE_DELETE, "instance-delete"),
+        (flag::INSTANCE_CREATE, "instance-create"),
+        (flag::INSTANCE_REPARENT, "instance-reparent"),
+        (flag::EDGE_DELETE_WITH_ATT, "edge-delete+attachment"),
+    ];
+    for (bit, name) in need {
+        let i = bit.trailing_zeros() as usize;
+        r.guard(&format!("pairs_with_{name}>0"), acc.flags_seen[i] > 0);
+    }
+    for name in ["edge-reparent", "node-delete-with-incident-edges", "portal-open", "portal-close", "instance-delete"] {
+        let i = FLAG_NAMES.iter().position(|n| *n == name).unwrap_or(0);
+        r.guard(&format!("ok_exact_pairs_with_{name}>0"), acc.flags_exact[i] > 0);
+    }
+    r.guard("reversed_insertion_order_cases>0", acc.rev_evals > 0);
+    for k in 0..8 {
+        r.guard(&format!("patches_with_{}>0", OP_KINDS[k]), acc.op_kinds[k] > 0);
+    }
+
+    // violations: one registration per signature carrying the minimal case, count = occurrences
+    for (sig, (n, detail)) in &t.viol_detail {
+        r.violation(sig, detail.clone());
+        for _ in 1..*n {
+            r.violation(sig, Value::Null);
+        }
+    }
     r.finish();
+}
+
+fn cap_s(r: &Report) -> f64 {
+    std::env::var("VERIF_CAP_S")
+        .ok()
+        .and_then(|s| s.parse::<f64>().ok())
+        .unwrap_or(if r.quick() { 240.0 } else { 3600.0 })
 }
